@@ -1,18 +1,63 @@
+//! rvharness — drives the real `regress` (built from /repo's working tree with `--cfg regress_verif`)
+//! and writes the line-protocol files that the Lean driver answers as well.
+//!
+//! usage: rvharness <cmd> [--seed N] [--n N] [--out DIR] [--tier quick|thorough] [--aux FILE]
+
+mod ast;
+mod ops_api;
+mod report;
+mod rng;
+mod util;
+
+use report::Report;
+
+fn arg(args: &[String], name: &str) -> Option<String> {
+    args.iter().position(|a| a == name).and_then(|i| args.get(i + 1).cloned())
+}
+
 fn main() {
     let args: Vec<String> = std::env::args().collect();
-    if args.len() >= 4 && args[1] == "probe" {
-        let re = regress::Regex::with_flags(&args[3], args[2].as_str()).unwrap();
-        println!("{}", regress::verif::dump_program(&re));
-        if args.len() >= 5 {
-            for m in re.find_iter(&args[4]) {
-                println!("{:?} {:?}", m.range(), m.captures);
+    if args.len() < 2 {
+        eprintln!("usage: rvharness <cmd> …");
+        std::process::exit(2);
+    }
+    let cmd = args[1].as_str();
+    let seed: u64 = arg(&args, "--seed").and_then(|s| s.parse().ok()).unwrap_or(1);
+    let n: usize = arg(&args, "--n").and_then(|s| s.parse().ok()).unwrap_or(1000);
+    let out = arg(&args, "--out").unwrap_or("/verif/.build/run".into());
+    let thorough = arg(&args, "--tier").as_deref() == Some("thorough");
+    let aux = arg(&args, "--aux").unwrap_or_default();
+    // a panic inside a guarded region is reported by the caller; keep the default hook quiet
+    std::panic::set_hook(Box::new(|_| {}));
+    let mut rep = Report::new();
+    match cmd {
+        "probe" => {
+            let re = regress::Regex::with_flags(&args[3], args[2].as_str()).unwrap();
+            println!("{}", regress::verif::dump_program(&re));
+            if args.len() >= 5 {
+                for m in re.find_iter(&args[4]) {
+                    println!("{:?} {:?}", m.range(), m.captures);
+                }
             }
+            return;
+        }
+        "bigalt" => {
+            let n: usize = args[2].parse().unwrap();
+            let pat = vec!["a"; n].join("|");
+            println!("{}", regress::Regex::new(&pat).is_ok());
+            return;
+        }
+        "c09" => ops_api::c09(&mut rep, n, seed),
+        "c11" => ops_api::c11(&mut rep, &aux, thorough, seed),
+        "c12sets" => ops_api::c12_sets(&mut rep, n, seed),
+        "c16" => ops_api::c16(&mut rep, n, seed),
+        "c17" => ops_api::c17(&mut rep, n, seed),
+        "c18" => ops_api::c18(&mut rep, thorough, n, seed),
+        _ => {
+            eprintln!("unknown command {}", cmd);
+            std::process::exit(2);
         }
     }
-    if args.len() >= 3 && args[1] == "bigalt" {
-        let n: usize = args[2].parse().unwrap();
-        let pat = vec!["a"; n].join("|");
-        let re = regress::Regex::new(&pat);
-        println!("{}", re.is_ok());
-    }
+    rep.write(&out).expect("write report");
+    println!("{} requests={} evaluations={} violations={}", cmd, rep.req.len(), rep.evaluations, rep.violations.len());
 }
